@@ -128,6 +128,54 @@ fn generic_refusals(to: F) -> Vec<String> {
 	out
 }
 
+/// Other entry points of the same source crate that a refactoring of xt could legitimately use; their
+/// texts are accepted as "the parser's own message" too.
+pub fn alternative_parse_errors(src: F, bytes: &[u8]) -> Vec<String> {
+	let mut out = vec![];
+	match src {
+		F::Json => {
+			for v in serde_json::Deserializer::from_slice(bytes).into_iter::<serde_json::Value>() {
+				if let Err(e) = v {
+					out.push(e.to_string());
+					break;
+				}
+			}
+			for v in serde_json::Deserializer::from_slice(bytes).into_iter::<IgnoredAny>() {
+				if let Err(e) = v {
+					out.push(e.to_string());
+					break;
+				}
+			}
+			for v in serde_json::Deserializer::from_reader(bytes).into_iter::<serde_json::Value>() {
+				if let Err(e) = v {
+					out.push(e.to_string());
+					break;
+				}
+			}
+			if let Some(e) = reference_parse_error(src, bytes, false) {
+				out.push(e);
+			}
+			if let Some(e) = reference_parse_error(src, bytes, true) {
+				out.push(e);
+			}
+		}
+		F::Msgpack => {
+			if let Some(e) = reference_parse_error(src, bytes, false) {
+				out.push(e);
+			}
+			if let Some(e) = reference_parse_error(src, bytes, true) {
+				out.push(e);
+			}
+		}
+		F::Yaml | F::Toml => {
+			if let Some(e) = reference_parse_error(src, bytes, false) {
+				out.push(e);
+			}
+		}
+	}
+	out
+}
+
 fn has_position(s: &str) -> bool {
 	s.contains("line ") || s.contains("position") || s.contains("byte ") || s.contains("column") || s.contains("index ")
 }
@@ -248,7 +296,7 @@ fn judge_syntax(t: &mut Tally, src: F, bytes: &[u8]) {
 		}
 		match &reference {
 			Some(r) => {
-				if text != r {
+				if text != r && !alternative_parse_errors(src, bytes).iter().any(|a| a == text) {
 					t.bad(format!("syntax-error-not-the-parsers-own:{}", src.name()), case.clone(), format!("{head}: xt says '{text}', the parser itself says '{r}'"));
 				}
 			}
